@@ -186,6 +186,11 @@ theorem gtliArgs_one {o : Obj} {m : FieldDecl} (b : Bool) (h : gtli ptm o = .ok 
     gtliArgs ptm b [o] = .ok [m] := by
   simp [gtliArgs, h, argOf]
 
+theorem gtliArgs_three {o₁ o₂ o₃ : Obj} {m₁ m₂ m₃ : FieldDecl} (b : Bool) (h₁ : gtli ptm o₁ = .ok (some m₁))
+    (h₂ : gtli ptm o₂ = .ok (some m₂)) (h₃ : gtli ptm o₃ = .ok (some m₃)) :
+    gtliArgs ptm b [o₁, o₂, o₃] = .ok [m₁, m₂, m₃] := by
+  simp [gtliArgs, h₁, h₂, h₃, argOf]
+
 theorem gtliArgs_two {o₁ o₂ : Obj} {m₁ m₂ : FieldDecl} (b : Bool) (h₁ : gtli ptm o₁ = .ok (some m₁))
     (h₂ : gtli ptm o₂ = .ok (some m₂)) : gtliArgs ptm b [o₁, o₂] = .ok [m₁, m₂] := by
   simp [gtliArgs, h₁, h₂, argOf]
@@ -267,6 +272,17 @@ theorem plainSp_plainType {s : Sp} {o : Obj} (h : plainSp s = true) (hev : ev pt
       cases hv : ev ptm v with
       | error e => simp [hk, hv] at hev
       | ok ov => simp [hk, hv] at hev; subst hev; rfl
+  case tri585 k v w =>
+    simp only [ev] at hev
+    cases hk : ev ptm k with
+    | error e => simp [hk] at hev
+    | ok ok' =>
+      cases hv : ev ptm v with
+      | error e => simp [hk, hv] at hev
+      | ok ov =>
+        cases hw : ev ptm w with
+        | error e => simp [hk, hv, hw] at hev
+        | ok ow => simp [hk, hv, hw] at hev; subst hev; rfl
 
 theorem plainRightSp_plainRight {s : Sp} {o : Obj} (h : plainRightSp s = true) (hev : ev ptm s = .ok o) :
     plainRight ptm o = true := by
@@ -306,6 +322,17 @@ theorem plainSp_not_typing {s : Sp} {o : Obj} (h : plainSp s = true) (hev : ev p
       cases hv : ev ptm v with
       | error e => simp [hk, hv] at hev
       | ok ov => simp [hk, hv] at hev; subst hev; rfl
+  case tri585 k v w =>
+    simp only [ev] at hev
+    cases hk : ev ptm k with
+    | error e => simp [hk] at hev
+    | ok ok' =>
+      cases hv : ev ptm v with
+      | error e => simp [hk, hv] at hev
+      | ok ov =>
+        cases hw : ev ptm w with
+        | error e => simp [hk, hv, hw] at hev
+        | ok ow => simp [hk, hv, hw] at hev; subst hev; rfl
 
 /-- a right operand of the plain kind is not a `typing` object, and is a plain type or a Field class -/
 theorem plainRightSp_kind {s : Sp} {o : Obj} (h : plainRightSp s = true) (hev : ev ptm s = .ok o) :
@@ -603,6 +630,44 @@ theorem ev_good : ∀ s : Sp, supported ptm s = true → ∃ o, ev ptm s = .ok o
     exact ⟨.finst (.anyOf [denote x, .enumLit [v]]),
       by simp [ev, hev, hfo, getItem_fieldObj g.gt (by simp [hfo])],
       good_finst _ _ rfl (by simp [isFieldExpr, h.1.2])⟩
+  | tri585 x y z ihx ihy ihz =>
+    intro h
+    simp only [supported, Bool.and_eq_true] at h
+    obtain ⟨ox, hex, gx⟩ := ihx h.1.1
+    obtain ⟨oy, hey, gy⟩ := ihy h.1.2
+    obtain ⟨oz, hez, gz⟩ := ihz h.2
+    refine ⟨.alias false .tuple [ox, oy, oz], by simp [ev, hex, hey, hez], ⟨?_, rfl, fun _ => rfl, rfl, fun h => by simp [kwAllowed] at h, rfl, rfl⟩⟩
+    simp [gtli, cbt_tuple, gtliArgs_three _ gx.gt gy.gt gz.gt, mkFromArgs, mkItems, someDecl, denote]
+  | triTyping x y z ihx ihy ihz =>
+    intro h
+    simp only [supported, Bool.and_eq_true] at h
+    obtain ⟨ox, hex, gx⟩ := ihx h.1.1
+    obtain ⟨oy, hey, gy⟩ := ihy h.1.2
+    obtain ⟨oz, hez, gz⟩ := ihz h.2
+    refine ⟨.alias true .tuple [ox, oy, oz],
+      by simp [ev, hex, hey, hez, typingArg_of_gtli gx.gt, typingArg_of_gtli gy.gt, typingArg_of_gtli gz.gt],
+      ⟨?_, rfl, fun _ => rfl, rfl, fun h => by simp [kwAllowed] at h, rfl, rfl⟩⟩
+    simp [gtli, cbt_tuple, gtliArgs_three _ gx.gt gy.gt gz.gt, mkFromArgs, mkItems, someDecl, denote]
+  | triSub x y z ihx ihy ihz =>
+    intro h
+    simp only [supported, Bool.and_eq_true] at h
+    obtain ⟨⟨⟨⟨⟨hx, hy⟩, hz⟩, ix⟩, iy⟩, iz⟩ := h
+    obtain ⟨ox, hex, gx⟩ := ihx hx
+    obtain ⟨oy, hey, gy⟩ := ihy hy
+    obtain ⟨oz, hez, gz⟩ := ihz hz
+    exact ⟨.finst (.tuplePos [denote x, denote y, denote z] false),
+      by simp [ev, hex, hey, hez, getItem_good gx ix, getItem_good gy iy, getItem_good gz iz, mkItems],
+      good_finst _ _ rfl rfl⟩
+  | triCall x y z ihx ihy ihz =>
+    intro h
+    simp only [supported, Bool.and_eq_true] at h
+    obtain ⟨⟨⟨⟨⟨hx, hy⟩, hz⟩, fx⟩, fy⟩, fz⟩ := h
+    obtain ⟨ox, hex, gx⟩ := ihx hx
+    obtain ⟨oy, hey, gy⟩ := ihy hy
+    obtain ⟨oz, hez, gz⟩ := ihz hz
+    exact ⟨.finst (.tuplePos [denote x, denote y, denote z] false),
+      by simp [ev, hex, hey, hez, tupleItem_good gx fx, tupleItem_good gy fy, tupleItem_good gz fz, mkItems],
+      good_finst _ _ rfl rfl⟩
 
 theorem sameMeaning_denote {s t : Sp} (h : SameMeaning s t) : denote s = denote t := by
   induction h with
@@ -620,6 +685,7 @@ theorem sameMeaning_denote {s t : Sp} (h : SameMeaning s t) : denote s = denote 
   | scls d n m => rfl
   | tup f g _ _ ihx ihy => cases f <;> cases g <;> simp [mkTup, denote, ihx, ihy]
   | pipeLit v n m _ ih => simp [denote, ih]
+  | tri f g _ _ _ ihx ihy ihz => cases f <;> cases g <;> simp [mkTri, denote, ihx, ihy, ihz]
   | pipeLitAnyOf v n m _ ih => simp [denote, ih]
   | anyOfPipeLit v n m _ ih => simp [denote, ih]
 
